@@ -5,6 +5,8 @@ import (
 	"encoding/json"
 	"fmt"
 	"os"
+	"runtime"
+	"runtime/debug"
 	"testing"
 	"time"
 
@@ -26,6 +28,7 @@ type Job struct {
 	Deadline  float64         `json:"deadline_s"` // wall-clock budget for this job
 	Samples   int             `json:"samples"`
 	Class     string          `json:"class,omitempty"`  // minimise: the violation class to preserve
+	Hashes    bool            `json:"hashes,omitempty"` // emit one {"seed","h"} line per run (determinism self-test)
 	Cursor    string          `json:"cursor,omitempty"` // file receiving the index of the run in progress
 }
 
@@ -54,6 +57,8 @@ type Record struct {
 	WallMs   float64         `json:"wall_ms"`
 	Tried    int             `json:"tried,omitempty"`
 }
+
+var nRuns int
 
 func TestMain(m *testing.M) {
 	graphql.SetSimHook(libHook)
@@ -86,6 +91,11 @@ func TestSim(t *testing.T) {
 	defer wr.Flush()
 	if job.Stride == 0 {
 		job.Stride = 1
+	}
+	// one discarded warm-up run: first-use initialisation in the process takes
+	// long enough to be time-sliced
+	if job.Mode != "info" {
+		runGuarded(t, p, p.Gen(7, -1, job.Tier), NewSeedTape(7))
 	}
 	start := time.Now()
 	emit := func(rec *Record, keep bool) {
@@ -156,6 +166,12 @@ func TestSim(t *testing.T) {
 			o := runGuarded(t, p, scn, tape)
 			rec := &Record{Prop: job.Prop, Seed: idx, Enum: enum, Scenario: scn, Outcome: o, WallMs: float64(time.Since(t0).Microseconds()) / 1000}
 			sum.Evaluations++
+			if job.Hashes {
+				cls := o.Classes()
+				line, _ := json.Marshal(map[string]interface{}{"kind": "hash", "seed": idx, "enum": enum, "h": o.TraceHash, "classes": cls, "steps": o.Steps, "nondet": o.NonDet})
+				wr.Write(line)
+				wr.WriteByte('\n')
+			}
 			sum.Steps += int64(o.Steps)
 			sum.Switches += int64(o.Switches)
 			sum.FakeNs += o.FakeNanos
@@ -187,6 +203,14 @@ func TestSim(t *testing.T) {
 // runGuarded runs one scenario with a real-time watchdog and converts escaped
 // panics of the harness itself into infrastructure errors.
 func runGuarded(t *testing.T, p Prop, scn json.RawMessage, tape *Tape) (o *Outcome) {
+	// No garbage collection while a run is in progress: GC work preempts
+	// goroutines and can reorder the ones woken within one scheduler step.
+	nRuns++
+	if nRuns%50 == 0 {
+		debug.SetGCPercent(100)
+		runtime.GC()
+	}
+	debug.SetGCPercent(-1)
 	done := make(chan struct{})
 	go func() {
 		select {
